@@ -17,16 +17,16 @@ class PandasFilterEngine(BaseFilterEngine):
             raise ValueError(f"Filter parameter {filter_feature.parameter} not supported")
 
         if max_operator is True:
-            return data[(data[filter_feature.name] >= min_parameter) & (data[filter_feature.name] < max_parameter)]
+            return data[(data[str(filter_feature.name)] >= min_parameter) & (data[str(filter_feature.name)] < max_parameter)]
 
-        return data[(data[filter_feature.name] >= min_parameter) & (data[filter_feature.name] <= max_parameter)]
+        return data[(data[str(filter_feature.name)] >= min_parameter) & (data[str(filter_feature.name)] <= max_parameter)]
 
     @classmethod
     def do_min_filter(cls, data: Any, filter_feature: SingleFilter) -> Any:
         value = filter_feature.parameter.value
         if value is None:
             raise ValueError(f"Filter parameter 'value' not found in {filter_feature.parameter}")
-        return data[data[filter_feature.name] >= value]
+        return data[data[str(filter_feature.name)] >= value]
 
     @classmethod
     def do_max_filter(cls, data: Any, filter_feature: SingleFilter) -> Any:
@@ -49,15 +49,15 @@ class PandasFilterEngine(BaseFilterEngine):
                 )
 
             if max_operator is True:
-                return data[data[filter_feature.name] < max_parameter]
+                return data[data[str(filter_feature.name)] < max_parameter]
             else:
-                return data[data[filter_feature.name] <= max_parameter]
+                return data[data[str(filter_feature.name)] <= max_parameter]
         elif has_value:
             # Simple parameter - extract the value
             value = filter_feature.parameter.value
             if value is None:
                 raise ValueError(f"Filter parameter 'value' not found in {filter_feature.parameter}")
-            return data[data[filter_feature.name] <= value]
+            return data[data[str(filter_feature.name)] <= value]
         else:
             raise ValueError(f"No valid filter parameter found in {filter_feature.parameter}")
 
@@ -66,18 +66,18 @@ class PandasFilterEngine(BaseFilterEngine):
         value = filter_feature.parameter.value
         if value is None:
             raise ValueError(f"Filter parameter 'value' not found in {filter_feature.parameter}")
-        return data[data[filter_feature.name] == value]
+        return data[data[str(filter_feature.name)] == value]
 
     @classmethod
     def do_regex_filter(cls, data: Any, filter_feature: SingleFilter) -> Any:
         value = filter_feature.parameter.value
         if value is None:
             raise ValueError(f"Filter parameter 'value' not found in {filter_feature.parameter}")
-        return data[data[filter_feature.name].astype(str).str.match(value)]
+        return data[data[str(filter_feature.name)].astype(str).str.match(value)]
 
     @classmethod
     def do_categorical_inclusion_filter(cls, data: Any, filter_feature: SingleFilter) -> Any:
         values = filter_feature.parameter.values
         if values is None:
             raise ValueError(f"Filter parameter 'values' not found in {filter_feature.parameter}")
-        return data[data[filter_feature.name].isin(values)]
+        return data[data[str(filter_feature.name)].isin(values)]
